@@ -1,6 +1,6 @@
 import RawPanelVerif.Base.B64
 import RawPanelVerif.Gen.Consts
-import RawPanelVerif.Base.Trim
+import RawPanelVerif.Base.Bytes
 /-!
 # Model of chunked graphics transfer (C05)
 
@@ -14,7 +14,10 @@ Mirrors, one definition per Go function / code block:
                                  `temp_HWCGfx` is a pointer that the returned message shares, so it is a *reference into
                                  a store* here; messages carry the reference, and are dereferenced when observed.
 * `Stream.parse`               — rawpanelhelpers.go `ASCIIreader.Parse`
-* `serialise` / `restore`      — the `json.Marshal` / `json.Unmarshal` hop of rawpanel-lib-c/main.go 23-41
+* `serialise` / `restore`      — the `json.Marshal` / `json.Unmarshal` hop of rawpanel-lib-c/main.go 23-41: ints exact,
+                                 strings through `jsonFix` (every invalid UTF-8 byte becomes U+FFFD), nil slice ↔ `null`
+* `Stream.handover`, `parseH`, `runH` — the same reader with object identity: what `Parse` hands to the batch converter,
+                                 one heap region per hand-over (for `stream_never_altered`)
 * non-graphics lines           — passed through to the rest of the decoder, which is opaque here (`Out.other line`
                                  stands for "whatever messages the decoder yields for this single line")
 
@@ -337,8 +340,9 @@ structure RState where
   list : Bytes := []
   deriving DecidableEq, Repr
 
-/-- `strings.TrimSpace` (ASCII; Base/Trim.lean) -/
-def trimSpace (l : Bytes) : Bytes := Trim.trimSpace l
+/-- `strings.TrimSpace`: strips the white-space *runes* of `unicode.IsSpace` at both ends — the ASCII ones and
+U+0085, U+00A0, U+1680, U+2000–200A, U+2028/9, U+202F, U+205F, U+3000 in their UTF-8 form (Base/Bytes.lean) -/
+def trimSpace (l : Bytes) : Bytes := RawPanelVerif.Bytes.trimSpace l
 
 /-- "Reset image intake" of the reader for a chunk-0 line -/
 def RState.intake (p : Parsed) : RState := { count := -1, list := p.list, ty := p.pfx, buf := some [], max := p.max }
@@ -391,10 +395,102 @@ def Stream.parse (s : RState) (input : Bytes) : RState × List Seen :=
   | none => (s, Batch.decode Batch.step [line])
   | some m => Stream.parseP s (parsedOf m) line
 
+/-! ## the streaming reader with object identity
+
+`Parse` creates no image object itself: it either returns nil or returns what ONE call of
+`RawPanelASCIIstringsToInboundMessages` returns for lines it hands over (`handover`).  The objects of a streaming
+session therefore live in one heap *region* per hand-over (the `store` of that batch call); the reader keeps no
+pointer into any region (`RState` = the five fields of `ASCIIreader`: two ints, two strings, a string slice). -/
+
+/-- repaired `Parse`, graphics line: the new reader state and the lines handed to the batch converter
+(`none`: `Parse` returns nil) -/
+def Stream.handoverP (s : RState) (p : Parsed) (line : Bytes) : RState × Option (List Bytes) :=
+  let s := if p.idx = 0 then RState.intake p else s
+  if s.ty = p.pfx then
+    if s.list = p.list then
+      if p.idx = s.count + 1 then
+        let s := { s with count := s.count + 1, buf := some (s.buf.getD [] ++ [line]) }
+        if p.idx = s.max then (s.cleared, some (s.buf.getD []))
+        else (s, none)
+      else (s.cleared, none)
+    else (s, none)
+  else (s, none)
+
+def Stream.handover (s : RState) (input : Bytes) : RState × Option (List Bytes) :=
+  let s := s.initRule
+  let line := trimSpace input
+  match matchGfx line with
+  | none => (s, some [line])
+  | some m => Stream.handoverP s (parsedOf m) line
+
+/-- one `Parse` call with the heap region it allocated: new reader state, the returned messages as references into
+the region, the region as it is when `Parse` returns (`[]` when nothing was handed over) -/
+def Stream.parseH (s : RState) (input : Bytes) : RState × List Out × List Img :=
+  let h := Stream.handover s input
+  match h.2 with
+  | none => (h.1, [], [])
+  | some ls =>
+    let r := Batch.run Batch.step ls
+    (h.1, r.2.map (·.out), r.1.store)
+
+/-- what one `Parse` call contributed to the session: the messages it returned and its region at return time -/
+structure Call where
+  outs : List Out
+  region : List Img
+  deriving DecidableEq, Repr
+
+/-- a session: every call appends its region to the session heap and touches nothing else of it -/
+def Stream.runH (s : RState) (heap : List (List Img)) : List Bytes → RState × List (List Img) × List Call
+  | [] => (s, heap, [])
+  | l :: ls =>
+    let r := Stream.parseH s l
+    let rest := Stream.runH r.1 (heap ++ [r.2.2]) ls
+    (rest.1, rest.2.1, ⟨r.2.1, r.2.2⟩ :: rest.2.2)
+
 /-! ## the JSON hop -/
 
-/-- the JSON document: five exported fields; `HWCGfx` is `null` for a nil slice and an array otherwise.
-(encoding/json is trusted to round-trip these for valid UTF-8 strings; ints are exact.) -/
+def isCont (b : UInt8) : Bool := 0x80 ≤ b && b ≤ 0xBF
+
+/-- `a b` is a two-byte UTF-8 sequence (`utf8.DecodeRune`: lead C2–DF) -/
+def utf8Two (a b : UInt8) : Bool := 0xC2 ≤ a && a ≤ 0xDF && isCont b
+
+/-- second byte of a three-byte sequence: E0 → A0–BF, ED → 80–9F (no surrogates), otherwise 80–BF -/
+def utf8Three (a b c : UInt8) : Bool :=
+  0xE0 ≤ a && a ≤ 0xEF &&
+    (if a = 0xE0 then 0xA0 ≤ b && b ≤ 0xBF else if a = 0xED then 0x80 ≤ b && b ≤ 0x9F else isCont b) && isCont c
+
+/-- second byte of a four-byte sequence: F0 → 90–BF, F4 → 80–8F, F1–F3 → 80–BF -/
+def utf8Four (a b c d : UInt8) : Bool :=
+  0xF0 ≤ a && a ≤ 0xF4 &&
+    (if a = 0xF0 then 0x90 ≤ b && b ≤ 0xBF else if a = 0xF4 then 0x80 ≤ b && b ≤ 0x8F else isCont b) &&
+    isCont c && isCont d
+
+/-- U+FFFD -/
+def replacement : Bytes := [0xEF, 0xBF, 0xBD]
+
+/-- what a Go string becomes on its way through `json.Marshal` and back through `json.Unmarshal`: every byte at which
+`utf8.DecodeRuneInString` reports `(RuneError, 1)` is replaced by U+FFFD; everything else (including the escapes for
+`<`, `>`, `&`, U+2028/9 and control characters, which `Unmarshal` undoes) comes back unchanged -/
+def jsonFix : Bytes → Bytes
+  | [] => []
+  | a :: r =>
+    let keep := jsonFix r                       -- the rest, when `a` is a rune of its own (ASCII or replaced)
+    if a < 0x80 then a :: keep else
+    match r with
+    | [] => replacement ++ keep
+    | b :: r1 =>
+      if utf8Two a b then a :: b :: jsonFix r1 else
+      match r1 with
+      | [] => replacement ++ keep
+      | c :: r2 =>
+        if utf8Three a b c then a :: b :: c :: jsonFix r2 else
+        match r2 with
+        | [] => replacement ++ keep
+        | d :: r3 =>
+          if utf8Four a b c d then a :: b :: c :: d :: jsonFix r3 else replacement ++ keep
+
+/-- the JSON document: five exported fields; `HWCGfx` is `null` for a nil slice and an array otherwise; ints are exact;
+the document is arbitrary here (whatever a caller passes as `state`) -/
 structure Wire where
   count : Int
   ty : Bytes
@@ -403,12 +499,14 @@ structure Wire where
   list : Bytes
   deriving DecidableEq, Repr
 
-def serialise (s : RState) : Wire := ⟨s.count, s.ty, s.buf, s.max, s.list⟩
+/-- `json.Marshal(reader)`: the three string-typed fields go through the string encoder -/
+def serialise (s : RState) : Wire := ⟨s.count, jsonFix s.ty, s.buf.map (·.map jsonFix), s.max, jsonFix s.list⟩
 
-/-- `var reader ASCIIreader; if state != nil { json.Unmarshal(state, &reader) }` -/
+/-- `var reader ASCIIreader; if state != nil { json.Unmarshal(state, &reader) }`: strings of the document are decoded
+by the string decoder, which also replaces invalid UTF-8 -/
 def restore : Option Wire → RState
   | none => {}
-  | some w => ⟨w.count, w.ty, w.buf, w.max, w.list⟩
+  | some w => ⟨w.count, jsonFix w.ty, w.buf.map (·.map jsonFix), w.max, jsonFix w.list⟩
 
 /-- one call of `RawPanelASCIIstringToInboundMessage(ascii, state)` of rawpanel-lib-c: returns the new state document -/
 def cCall (parse : RState → Bytes → RState × List Seen) (state : Option Wire) (line : Bytes) :
